@@ -96,6 +96,10 @@ func (s LocalStore) StoreChunk(chunk *Chunk) error {
 // n determines the number of concurrent operations. w is used to write any messages
 // intended for the user, typically os.Stderr.
 func (s LocalStore) Verify(ctx context.Context, n int, repair bool, w io.Writer) error {
+	// Verify is the check: it reads with verification whatever the store is
+	// otherwise configured to trust (s is a copy, the caller's store is unaffected)
+	s.Opt.SkipVerify = false
+
 	var wg sync.WaitGroup
 	ids := make(chan ChunkID)
 
